@@ -162,6 +162,18 @@ def make_judges(ctx):
         rlo, rhi = R.code_range(res.signed, res.n_word)
         bad = None
         if cname == 'clip' and any((e / lsb).denominator != 1 or not (rlo <= e / lsb <= rhi) for e in expf):
+            if ev.exc is not None:
+                ctx.violation('raises', 'clip(%s) with numeric bounds raised %s: %s' % (R.dtype_fxp(*x.fmt()), type(ev.exc).__name__, str(ev.exc)[:120]), ev, key='red.raises.clip')
+                return
+            if all((e / lsb).denominator == 1 for e in expf) and res.overflow == 'saturate' and tuple(res.shape) == tuple(shape):
+                # bounds on the grid but beyond the range of the format: the clipped values saturate on their own side
+                want = [min(max(int(e / lsb), rlo), rhi) for e in expf]
+                if res.codes != want:
+                    ctx.violation('value', 'clip(%s) at bounds beyond the range: codes %s, the clipped values %s saturate to %s' % (
+                        R.dtype_fxp(*x.fmt()), res.codes[:4], [str(e) for e in expf[:4]], want[:4]), ev)
+                ctx.judged(('clip-beyond-range', route, 's' if x.signed else 'u'), True, None, elements=len(want))
+                ctx.floor_hit(('clip_beyond_range', 's' if x.signed else 'u'))
+                return
             ctx.skip('red:clip with a bound that the result format cannot represent (the clipped value is then quantized, not exact)')
             return
         if tuple(res.shape) != tuple(shape):
@@ -225,7 +237,7 @@ def floors(tier):
     cells = [(f, r) for f in ('sum', 'cumsum', 'prod', 'cumprod', 'max', 'min', 'clip', 'transpose', 'diagonal', 'trace', 'dot') for r in ('numpy', 'method')]
     cells += [('sort', 'numpy'), ('sort', 'method'), ('matmul', 'numpy'), ('transpose_axes',)]
     cells += [('clip_bounds', b) for b in ('float/float', 'ndarray/ndarray', 'list/list', 'Fxp/Fxp', 'float/none', 'none/float')]
-    cells += [('clip_bounds_other_format',), ('clip_min_max_keywords',), ('clip_narrow_numpy_bound', 'i'), ('clip_narrow_numpy_bound', 'u'), ('clip_narrow_numpy_bound', 'f')]
+    cells += [('clip_bounds_other_format',), ('clip_min_max_keywords',), ('clip_narrow_numpy_bound', 'i'), ('clip_narrow_numpy_bound', 'u'), ('clip_narrow_numpy_bound', 'f'), ('clip_beyond_range', 's'), ('clip_beyond_range', 'u')]
     cells += [('edge_format', f) for f in ('sum', 'cumsum', 'prod', 'cumprod', 'dot', 'clip', 'max', 'sort')]
     cells += [('acc_significant_bits>24', 'dot'), ('acc_significant_bits>11', 'dot'), ('acc_significant_bits>11', 'sum'), ('noncontiguous_operand',)]
     return cells
@@ -398,6 +410,17 @@ def run_case(case, ctx):
             _try(lambda: x.clip(tp(ia_), None))
             _try(lambda: np.clip(x, None, np.full(shape, ib_, dtype=tp)))
             _try(lambda: np.clip(x[::-1], tp(ia_), float(ib_)))
+    # integer bounds beyond the range of the format (an unsigned object clipped below zero, huge integers): the result saturates on the bound's side
+    if nf >= 0:
+        if not s:
+            _try(lambda: np.clip(x, None, -1))
+            _try(lambda: x.clip(-3, -1))
+            _try(lambda: np.clip(x, None, np.int64(-1)))
+            _try(lambda: np.clip(x[(0,) * len(shape)], None, -1))
+        else:
+            _try(lambda: np.clip(x, 2 ** 61, None))
+            _try(lambda: x.clip(None, -10 ** 30))
+            _try(lambda: np.clip(x, -(hi + 5), hi + 7))
     _try(lambda: np.clip(x, min=amin, max=amax))
     _try(lambda: x.clip(min=amin))
     _try(lambda: np.clip(x, amin, max=amax))
